@@ -204,3 +204,17 @@ def build_trial(ctx, f, raw):
 @builder("ns")
 def build_ns(ctx, f, raw):
     return types.SimpleNamespace(**f)
+
+
+@builder("pending")
+def build_pending(ctx, f, raw):
+    from syne_tune.optimizer.schedulers.searchers.bayesopt.datatypes.common import PendingEvaluation
+
+    return PendingEvaluation(trial_id=f["_trial_id"], resource=f["_resource"])
+
+
+@builder("slot")
+def build_slot(ctx, f, raw):
+    from syne_tune.optimizer.schedulers.synchronous.hyperband_bracket import SlotInRung
+
+    return SlotInRung(**f)
